@@ -61,7 +61,7 @@ prop('C04', 'unoccupied storage is never observed', thorough_reach=False, code_f
      bounds=dict(E1=E1_BOUNDS, E2=E2_BOUNDS),
      # after a caught panic, too, no operation may expose or destroy a slot that holds no live element: the E2
      # post-condition "visible element is live" / "no destructor on a dead slot" at reduced capacities
-     e2=[dict(tag='std', features=['std', 'alloc'], jobs=e2_jobs([(s, 0, [1, 2, 3]) for s in C04_E2], [(s, 0, [1, 2, 3, 4]) for s in C04_E2]))])
+     e2=[dict(tag='std', features=['std', 'alloc'], jobs=e2_jobs([(s, 0, [2, 3]) for s in C04_E2], [(s, 0, [1, 2, 3, 4]) for s in C04_E2]))])
 prop('C05', 'panicking destructor: no second drop, buffer stays valid', e1_configs=[], bounds=E2_BOUNDS,
      e2=[dict(tag='std', features=['std', 'alloc'],
               jobs=e2_jobs([(s, 1, QN5) for s in C05_SCENS] + [('FROM_ARRAY', 1, FA_Q)],
@@ -82,8 +82,8 @@ prop('C14', 'byte-stream I/O')
 prop('C16', 'embedded-io(-async) == std::io', e1_configs=['eio', 'eio-async', 'eio-both'])
 prop('C17', 'no operation allocates; builds without std/alloc', thorough_reach=False, e1_configs=['nodefault', 'alloc', 'default'], only_desc='ALLOCATION', build_clause=True,
      stubs=['alloc::alloc::{alloc, alloc_zeroed, realloc} -> panic!("ALLOCATION")', ROT_STUB])
-C18_N = [0, 1, 3]
-C18_E2 = [(s, 0, C18_N) for s in sorted(set(C05_SCENS + C06_SCENS + C11_SCENS))] + [('FROM_ARRAY', 1, [(0, 2), (1, 3), (3, 5)])]
+C18_N = [0, 3]
+C18_E2 = [(s, 0, C18_N) for s in sorted(set(C05_SCENS + C06_SCENS + C11_SCENS))] + [('FROM_ARRAY', 1, [(0, 2), (3, 5)])]
 C18_E2_T = [(s, 0, [0, 1, 2, 3, 4]) for s in sorted(set(C05_SCENS + C06_SCENS + C11_SCENS))] + [('FROM_ARRAY', 1, FA_Q)]
 prop('C18', 'unstable feature does not change behaviour', thorough_reach=False, e1_configs=[], differential=('default', 'unstable'), stubs=[ROT_STUB],
      bounds=dict(E1=E1_BOUNDS, E2=E2_BOUNDS, capacities_quick=C18_N),
